@@ -445,6 +445,15 @@ def classify(ctx, spec, tags, info):
     for t in sorted((tags & ORACLE) - excused):
         ctx.violation(TAGS[t], {'spec': spec, 'tags': sorted(tags), 'tag_meaning': TAGS[t], 'info': _slim(info)})
         status = 'violation'
+    # A listed defect was repaired in /repo but the faithful model still mirrors it: the implementation is
+    # right by the specification (no oracle tag) exactly where the model's guard is false -> not an alarm.
+    stale = ((2 in tags and 207 in tags) or (4 in tags and (205 in tags or 206 in tags)))
+    if stale and status == 'ok' and not (tags & (CORR - {2, 4})):
+        ctx.coverage['model_stale_after_fix'] = ctx.coverage.get('model_stale_after_fix', 0) + 1
+        if 'model_stale_after_fix' not in ' '.join(ctx.notes):
+            ctx.notes.append('model_stale_after_fix: the implementation now satisfies the specification on guard-false inputs '
+                             '(g_binary / g_prec / g_printable) where the model reproduces the former defect')
+        return 'ok'
     if (tags & CORR) and status != 'violation':
         ctx.broken.append('correspondence C02 model vs implementation: ' + ', '.join(TAGS[t] for t in sorted(tags & CORR))
                           + ' on ' + json.dumps(spec)[:600])
